@@ -251,8 +251,12 @@ namespace nmtools::array
                     out_data_ptr[i] = identity;
                 }
                 auto inp_shape = nmtools::shape(*input_array_ptr);
-                auto reduction_axis = view.axis;
-                auto reduction_kind = (reduction_axis == -1) || ((int)reduction_axis == (int)(len(inp_shape)-1)) ? ReductionKind::HORIZONTAL : ReductionKind::VERTICAL;
+                // a negative axis counts from the end
+                auto reduction_axis = [&](){
+                    auto axis = static_cast<nm_index_t>(view.axis);
+                    return (axis < 0) ? static_cast<nm_index_t>(axis + (nm_index_t)len(inp_shape)) : axis;
+                }();
+                auto reduction_kind = ((int)reduction_axis == (int)(len(inp_shape)-1)) ? ReductionKind::HORIZONTAL : ReductionKind::VERTICAL;
                 // "normalize" the out shape as if keepdims=True
                 auto out_shape_ = [&](){
                     using keepdims_type = decltype(view.keepdims);
